@@ -343,18 +343,26 @@ let handle (line : string) : string =
         | _ -> failwith "cli file" in
       "S " ^ show_str (M.cli_stdout ser fl (List.map file files))
   | L [A "pq"; id; root; L nss; L vars; L funs; A asis; text] ->
-      (match M.parse_string (asis = "1") (str_of_sx text) with
-       | None -> "E build"
-       | Some e ->
-           let d = Hashtbl.find docs (int_of_sx id) in
-           let en = { M.e_doc = d; M.e_root = path_of_sx root;
-                      M.e_ns = List.map (function L [A "ns"; a; b] -> (str_of_sx a, str_of_sx b) | _ -> failwith "ns") nss;
-                      M.e_vars = List.map (function L [A "v"; a; b; v] -> (qname_of a b, value_of_sx v) | _ -> failwith "var") vars;
-                      M.e_funs = List.map (function L [A "fn"; a; b; f] -> (qname_of a b, ufun_of_sx f) | _ -> failwith "fn") funs;
-                      M.e_asis = false } in
-           show_res (M.exec en e))
-  | L [A "render"; A ab; e] ->
-      (match M.canonical_text (ab = "1") (expr_of_sx e) with
+      let run e =
+        let d = Hashtbl.find docs (int_of_sx id) in
+        let en = { M.e_doc = d; M.e_root = path_of_sx root;
+                   M.e_ns = List.map (function L [A "ns"; a; b] -> (str_of_sx a, str_of_sx b) | _ -> failwith "ns") nss;
+                   M.e_vars = List.map (function L [A "v"; a; b; v] -> (qname_of a b, value_of_sx v) | _ -> failwith "var") vars;
+                   M.e_funs = List.map (function L [A "fn"; a; b; f] -> (qname_of a b, ufun_of_sx f) | _ -> failwith "fn") funs;
+                   M.e_asis = false } in
+        show_res (M.exec en e) in
+      if asis = "1" then
+        (* the matcher of the open finding C08-lexical-restrictions: every reading the generated lexer/grammar allows *)
+        (match M.parse_string_readings (str_of_sx text) with
+         | [] -> "E build"
+         | es -> String.concat " || " (List.sort_uniq compare (List.map run es)))
+      else
+        (match M.parse_string false (str_of_sx text) with
+         | None -> "E build"
+         | Some e -> run e)
+  | L [A "render"; A mode; e] ->
+      let rec nat_of n = if n <= 0 then M.O else M.S (nat_of (n - 1)) in
+      (match M.canonical_text (nat_of (int_of_string mode)) (expr_of_sx e) with
        | None -> "E not-canonical"
        | Some s -> "S " ^ show_str s)
   | L [A "sv"; id; p] -> "S " ^ show_str (M.string_value (Hashtbl.find docs (int_of_sx id)) (path_of_sx p))
